@@ -286,13 +286,18 @@ def check_faults(case: dict):
                 await ac.refresh()
                 if not ac.online:
                     if len(dev.transmissions) == n0 and mode["kind"] is None and not dev.connect_script:
-                        raise RuntimeError("refresh() of a promptly responding device transmitted nothing")
+                        out["silent_refresh"] = True       # refresh() of a promptly responding device transmitted nothing
                     raise TimeoutError("offline")
                 return [dev.ac.state_frame(0x03)]
             return await lan.send(FRAME)
 
         if established:
-            r = await exchange()
+            try:
+                r = await exchange()
+            except (TimeoutError, ProtocolError) as e:
+                out["setup"] = f"the first exchange with a promptly responding device failed: {e!r}" + (
+                    " (refresh() transmitted nothing)" if out.get("silent_refresh") else "")
+                return
             if not r:
                 out["setup"] = "established exchange failed"
                 return
@@ -301,7 +306,11 @@ def check_faults(case: dict):
                 for i in range(16 + case["near_wrap"]):
                     if i < 16:
                         lan._protocol._packet_id += 4094      # 16 x 4095 packets later ...
-                    if not await exchange():
+                    try:
+                        ok = await exchange()
+                    except (TimeoutError, ProtocolError) as e:
+                        ok = False
+                    if not ok:
                         out["setup"] = "exchange failed while ageing the connection"
                         return
 
@@ -382,6 +391,8 @@ def check_faults(case: dict):
     for rec in out["exchanges"]:
         if rec["outcome"] in ("other", "bad-return"):
             return (f"fault/{rec['fault'].split(':')[0]}/escapes", f"faulty exchange ended outside the contract: {rec}")
+    if out.get("silent_refresh"):
+        return ("recovery/no-transmission", f"refresh() of a promptly responding device transmitted nothing (faults {faults}, lifetime {case.get('lifetime')}); exchanges {out['exchanges']}")
     if "clean_exc" in out:
         e = out["clean_exc"]
         return (f"recovery/{type(e).__name__}/after-{faults[-1]}", f"clean exchange after {faults} (pause {pause}) failed with {e!r}; exchanges {out['exchanges']}; device log {out['log']}")
